@@ -1,5 +1,6 @@
 import Cppcms.C03.ConnWriteLemmas
 import Cppcms.C03.FramingLemmas
+import Cppcms.C03.BuffersLemmas
 /-!
 # C03 — the client receives exactly the bytes the application wrote, once and in order
 
@@ -117,5 +118,105 @@ example (data : Bytes) (h : data.length = 70000) :
   rw [stdoutRecs]
   have h2' : (data.drop 65535).length = 4465 := h2
   simp [h, h2', Gen.isFullRecord, Gen.maxPacketLen, Gen.lastPad, List.length_take]
+
+/-! ## 3. the stream-buffer chain -/
+
+/-- **device_conservation.**  For either device (`output_device`, `async_io_buf` with full or
+partial buffering), any initial buffer size and every sequence of `sputn` / `sputc` / `pubsync` /
+`flush_async_chunk` / `setbuf m` / `full_asynchronous_buffering b` (over a connection that accepts
+its writes): bytes passed to `connection::write` so far ++ buffered bytes = bytes written by the layer above,
+and no eof has been announced.  After `close()`: nothing is buffered, everything has been passed on, and
+eof was sent exactly once — with the last write.  The `flush_async_chunk` that `async_write_response` adds
+after `finalize()` sends no second eof. -/
+theorem device_conservation (isAsync full : Bool) (n : Nat) (ops : List DevOp) :
+    let d0 := ({ isAsync := isAsync, fullBuffering := full } : Dev).open n
+    let r := Dev.run (d0, []) ops
+    let c := r.1.close logIf r.2
+    let f := c.1.flush logIf c.2
+    Log.bytes r.2 ++ r.1.content = (ops.map DevOp.data).flatten ∧ Log.eofs r.2 = 0 ∧
+    Log.bytes c.2 = (ops.map DevOp.data).flatten ∧ c.1.content = [] ∧ Log.eofs c.2 = 1 ∧
+    (c.2.getLast?.map (·.2)) = some true ∧
+    Log.bytes f.2.1 = (ops.map DevOp.data).flatten ∧ Log.eofs f.2.1 = 1 := by
+  intro d0 r c f
+  have ⟨hi0, hq0⟩ := Dev.open_inv isAsync full n
+  have ⟨hi, hq⟩ := Dev.run_inv ops d0 [] [] hi0 hq0
+  simp only [List.nil_append] at hi
+  have ⟨c1, c2, c3, c4, c5, c6, c7⟩ := Dev.close_spec r.1 r.2 _ hi hq
+  have ⟨f1, f2⟩ := Dev.flush_after_close c.1 c.2 _ c5 c6 c7
+  refine ⟨hi.2.2.2, hq.2.2, c1, c2, c3, ?_, ?_, ?_⟩
+  · show (c.2.getLast?.map (·.2)) = some true
+    rw [c4]; rfl
+  · show Log.bytes f.2.1 = _
+    rw [f1, c1, c2, List.append_nil]
+  · show Log.eofs f.2.1 = 1
+    rw [f2, c3]
+
+/-- non-vacuity / illustration: unbuffered device, a write larger than the buffer, a put, a setbuf that forces a flush -/
+example : (Dev.run (({} : Dev).open 2, []) [.put [1,2,3], .putc 4, .putc 5, .setbuf 1, .put [6]]).2 = [([1,2,3], false), ([4,5], false)]
+    ∧ (Dev.run (({} : Dev).open 2, []) [.put [1,2,3], .putc 4, .putc 5, .setbuf 1, .put [6]]).1.content = [6] := by
+  decide
+
+/-- the eof bookkeeping of `basic_device::write` (`eof_send_ = send_eof`) toggles: a third flush after
+`close(); flush()` would announce eof again.  `http::context` never does that (one `finalize`, at most one
+`flush_async_chunk` after it), which is what `device_conservation` covers. -/
+theorem eof_flag_toggles_counterexample :
+    let d0 := ({ isAsync := true } : Dev).open 4
+    let c := d0.close logIf []
+    let f1 := c.1.flush logIf c.2
+    let f2 := f1.1.flush logIf f1.2.1
+    Log.eofs f2.2.1 = 2 := by decide
+
+/-- **cache_copy_identical.**  For every sequence of writes/puts/flushes through `copy_buf` followed by
+`close()`: the bytes it handed to the next buffer (what goes towards the client) and the bytes
+`copied_data()` returns for the page cache are both exactly the bytes written into it. -/
+theorem cache_copy_identical (ops : List BufOp) :
+    let r := Copy.run ({}, []) ops
+    let c := r.1.close
+    actBytes (r.2 ++ c.2) = (ops.map BufOp.data).flatten ∧ c.1.getstr.1 = (ops.map BufOp.data).flatten ∧
+    c.1.getstr.1 = actBytes (r.2 ++ c.2) := by
+  intro r c
+  have h := Copy.run_inv ops {} [] [] (by simpa [actBytes] using Copy.inv_init)
+  simp only [List.nil_append] at h
+  have ⟨h1, h2⟩ := Copy.close_spec r.1 _ _ h
+  rw [actBytes_append]
+  exact ⟨h1, h2, by rw [h1, h2]⟩
+
+/-- non-vacuity: 300 bytes overflow the initial 128-byte buffer twice (doubling to 256 then 512) -/
+example : ((Copy.run ({}, []) [.put (List.replicate 300 7), .sync]).1.vec.length,
+           actBytes (Copy.run ({}, []) [.put (List.replicate 300 7), .sync]).2 == List.replicate 300 7) = (512, true) := by
+  decide +kernel
+
+/-- **gzip_bookkeeping.**  For every deflater, buffer size and sequence of writes/puts/flushes through
+`gzip_buf` followed by `close()`: the inputs fed to the deflater, in order, are exactly the
+application bytes; `Z_FINISH` is issued exactly once, as the last call; the bytes handed to the next
+buffer are exactly the deflater's outputs in order.  Hence, for any `inflate` that inverts this deflater
+on finished streams, the client recovers the application bytes from the body. -/
+theorem gzip_bookkeeping (D : Deflater) (bufsize : Int) (ops : List BufOp) :
+    let r := Gz.run (Gz.open D bufsize, []) ops
+    let c := r.1.close
+    ∃ calls last, c.1.fed = calls ++ [(last, Flush.finish)] ∧ (∀ x ∈ calls, x.2 ≠ Flush.finish) ∧
+      (c.1.fed.map (·.1)).flatten = (ops.map BufOp.data).flatten ∧
+      actBytes (r.2 ++ c.2) = (feedAll D D.init c.1.fed).2 ∧
+      ∀ inflate : Bytes → Option Bytes,
+        (∀ cs l, (∀ x ∈ cs, x.2 ≠ Flush.finish) →
+            inflate (feedAll D D.init (cs ++ [(l, Flush.finish)])).2 = some ((cs ++ [(l, Flush.finish)]).map (·.1)).flatten) →
+        inflate (actBytes (r.2 ++ c.2)) = some (ops.map BufOp.data).flatten := by
+  intro r c
+  have h := Gz.run_inv ops (Gz.open D bufsize) [] [] (by simpa [actBytes] using Gz.open_inv D bufsize)
+  simp only [List.nil_append] at h
+  obtain ⟨calls, last, h1, h2, h3, h4, _⟩ := Gz.close_spec r.1 _ _ h
+  refine ⟨calls, last, h1, h2, h3, ?_, ?_⟩
+  · rw [actBytes_append]; exact h4.symm
+  · intro inflate hinf
+    rw [actBytes_append, ← h4, h1, hinf calls last h2, ← h1, h3]
+
+/-- a deflater that stores: output = input -/
+def idDeflater : Deflater := { σ := Unit, init := (), feed := fun _ i _ => ((), i) }
+
+/-- non-vacuity: a storing deflater satisfies the hypothesis shape on a concrete run
+(259 bytes through a 256-byte buffer: one Z_NO_FLUSH feed of 256 bytes, then Z_FINISH with the remaining 3) -/
+example : ((Gz.run (Gz.open idDeflater (-1), []) [.put (List.replicate 259 9)]).1.close).1.fed.map (fun x => (x.1.length, x.2))
+    = [(256, Flush.noFlush), (3, Flush.finish)] := by
+  decide +kernel
 
 end Cppcms.C03.Props
